@@ -420,6 +420,9 @@ func (w *WS) Pause(p bool) { w.paused.Store(p) }
 // SendText sends a text message (the gateway must treat it as an error).
 func (w *WS) SendText(p []byte) error { return w.writeFrame(0x1, true, p) }
 
+// SendPing sends a websocket ping control frame (a client or a proxy in between may do so at any time).
+func (w *WS) SendPing(payload []byte) error { return w.writeFrame(0x9, true, payload) }
+
 // SendClose sends a websocket close frame.
 func (w *WS) SendClose() error { return w.writeFrame(0x8, true, []byte{0x03, 0xe8}) }
 
